@@ -203,17 +203,18 @@ Proof.
     destruct (Hname idx Hk) as [Rk Enk]. now rewrite E.
 Qed.
 
-(* ---- 4. gen accepts ---- *)
-Theorem gen_accepts : forall p c tmpl,
+(* ---- 4. the translated program of a built script: everything the later passes need ---- *)
+Definition built_nmap (c : list Z) (idx : Z) : list N := stmt_name (nth (Z.to_nat idx) c 0) idx.
+
+Lemma built_ir : forall p c,
   evaluate p = Ok c -> NoDup c -> p <> [] -> Z.of_nat (length p) + 1 < 2 ^ 63 ->
-  In tmpl [$"listing"; $"chain"; $"ops"; $"script"] ->
-  exists t, build_program p = Ok t /\
-    (script_huge t = false -> exists out, gen default_cfg tmpl (print_script t) = Ok out).
+  exists t ir, build_program p = Ok t /\ wf_script t = true /\ translate t = Ok ir /\
+    compile ir = Ok (map cop p) /\ validate_ir ir = Ok tt /\ nz_shifts ir /\ wf_ir ir /\ ir <> [] /\
+    consistent (built_nmap c) ir.
 Proof.
-  intros p c tmpl He Hnd Hpne Hlen Htmpl.
+  intros p c He Hnd Hpne Hlen.
   assert (Hwf : Program.wf_program p) by exact (proj1 (SearchMain.evaluate_ok_wf p c He)).
   destruct (build_emitted p c Hwf He Hnd Hpne) as (q & t & ts & Eq & Eb & Etr & Eem & Hnames).
-  exists t. split; [exact Eb|]. intros Hhuge.
   (* the same t as build_translate's *)
   destruct (build_translate p c Hwf He Hnd ltac:(lia)) as (t' & Eb' & Hw & _ & Ete).
   rewrite Eb in Eb'. injection Eb' as <-.
@@ -230,21 +231,17 @@ Proof.
   destruct (map_opt (resolve_instr (tobjs sc)) (tinstrs sc)) as [ir|] eqn:Emo; [|rewrite Hz in Hr; discriminate Hr].
   rewrite Hz in Hr. injection Hr as Hr.
   assert (Etrans : translate t = Ok ir) by (unfold translate; rewrite Ts; cbn [obind]; rewrite Emo; reflexivity).
-  (* Compile of the translated program *)
   assert (Ecomp : compile ir = Ok (map cop p)).
   { unfold compile. rewrite compile_loop_strip, <- Hr. unfold Naming.compile in Ec. exact (naming_compile_z _ _ _ Ec). }
-  (* Validate *)
   assert (Eval : validate_ir ir = Ok tt).
   { unfold validate_ir. rewrite (validate_strip ir (A.t_emitted ts) [0]) by (symmetry; exact Hr).
     rewrite Eem, validate_canon, <- check_dangling_validate.
     destruct (decompile_no_dangling p Hwf) as (q' & Eq' & Hd). rewrite Eq in Eq'. injection Eq' as <-. exact Hd. }
-  (* the hypotheses of the allocator *)
   assert (Hnz : nz_shifts ir) by exact (translate_nz_shifts t ir Etrans).
   assert (Hwfir : wf_ir ir) by exact (wf_from_of_compile ir [0] [] (map cop p) Hnz Eval Ecomp).
   assert (Hirne : ir <> []).
   { intros ->. cbn in Ecomp. injection Ecomp as E. destruct p; [contradiction|discriminate E]. }
-  destruct (last_instr_some ir Hirne) as (lst & Elst).
-  assert (Hcons : consistent (fun idx => stmt_name (nth (Z.to_nat idx) c 0) idx) ir).
+  assert (Hcons : consistent (built_nmap c) ir).
   { intros o Ho. destruct (resolve_operands _ _ _ Emo o Ho) as (id & Hid).
     destruct (Hnamed id o Hid) as [E|Hin]; [left; exact E|].
     destruct (list_eq_dec N.eq_dec (oname o) []) as [E|Hne]; [left; exact E|right].
@@ -255,9 +252,24 @@ Proof.
       left. cbn [fst snd] in H1, H2. unfold idx in H2. rewrite Hid in H2. cbn in H2. injection H2 as H2.
       destruct b as [bn bi]. cbn [fst snd] in *. congruence. }
     exact (Hnames _ _ Hb Hne). }
+  exists t, ir. rewrite wf_script_eq in Hw. repeat (split; [assumption|]). exact Hcons.
+Qed.
+
+(* ---- 4b. gen accepts ---- *)
+Theorem gen_accepts : forall p c tmpl,
+  evaluate p = Ok c -> NoDup c -> p <> [] -> Z.of_nat (length p) + 1 < 2 ^ 63 ->
+  In tmpl [$"listing"; $"chain"; $"ops"; $"script"] ->
+  exists t out, build_program p = Ok t /\ gen default_cfg tmpl (print_script t) = Ok out.
+Proof.
+  intros p c tmpl He Hnd Hpne Hlen Htmpl.
+  destruct (built_ir p c He Hnd Hpne Hlen) as (t & ir & Eb & Hw & Etrans & Ecomp & Eval & Hnz & Hwfir & Hirne & Hcons).
+  cut (exists out, gen default_cfg tmpl (print_script t) = Ok out).
+  { intros (out & Hout). exists t, out. split; [exact Eb|exact Hout]. }
+  assert (Ev : evaluate (map cop p) = Ok c).
+  { unfold evaluate. rewrite evaluate_from_cop. exact He. }
+  destruct (last_instr_some ir Hirne) as (lst & Elst).
   destruct (allocated_exec default_cfg ir lst _ 1 (proj1 default_cfg_ok) Hwfir Elst Hcons) as (qa & temps & Ealloc & _).
-  (* assemble *)
-  unfold gen. rewrite wf_script_eq in Hw. rewrite (roundtrip t Hw). cbn [obind]. rewrite Hhuge.
+  unfold gen. rewrite (roundtrip t Hw). cbn [obind].
   assert (Eprep : exists d, prepare default_cfg t = Ok d).
   { unfold prepare. rewrite Etrans. cbn [obind]. rewrite Eval. cbn [obind]. rewrite Ealloc. cbn [obind fst snd].
     assert (Ecq : compile qa = Ok (map cop p)).
@@ -273,14 +285,12 @@ From AV Require Import model.Search.
 Lemma report_gen : forall p c tmpl text,
   evaluate p = Ok c -> NoDup c -> p <> [] -> Z.of_nat (length p) + 1 < 2 ^ 63 ->
   In tmpl [$"listing"; $"chain"; $"ops"; $"script"] -> report p = Ok text ->
-  exists t, parse text = Ok t /\ (script_huge t = false -> exists out, gen default_cfg tmpl text = Ok out).
+  exists out, gen default_cfg tmpl text = Ok out.
 Proof.
   intros p c tmpl text He Hnd Hpne Hlen Htmpl Hr.
-  destruct (gen_accepts p c tmpl He Hnd Hpne Hlen Htmpl) as (t & Eb & Hg).
+  destruct (gen_accepts p c tmpl He Hnd Hpne Hlen Htmpl) as (t & out & Eb & Hg).
   unfold report in Hr. rewrite Eb in Hr. cbn [obind] in Hr. injection Hr as <-.
-  exists t. split; [|exact Hg].
-  destruct (build_translate p c (proj1 (SearchMain.evaluate_ok_wf p c He)) He Hnd ltac:(lia)) as (t' & Eb' & Hw & _).
-  rewrite Eb in Eb'. injection Eb' as <-. apply roundtrip. rewrite <- wf_script_eq. exact Hw.
+  exists out. exact Hg.
 Qed.
 
 (* a result for a target >= 2 has at least one operation *)
@@ -290,14 +300,11 @@ Proof.
   destruct Hch as ((t & Et) & _). rewrite Et in *. destruct t as [|x t]; [cbn in Hlast; lia|cbn [length] in Hlen; lia].
 Qed.
 
-(* For a target >= 2, gen (every builtin template) accepts what search printed.  script_huge: the gen model
-   of C06 answers "toolarge" for a script with a shift above 4096 (a convention of that model and its
-   check, not of the Go code), so the statement excludes such scripts. *)
+(* For a target >= 2, gen (every builtin template) accepts what search printed. *)
 Theorem consistent_gen : forall w n rs o tmpl,
   2 <= n -> Forall (SearchMain.good_ares n) rs -> Forall SearchMain.fits_slice rs ->
   SearchMain.consistent_report w n rs o -> In tmpl [$"listing"; $"chain"; $"ops"; $"script"] ->
-  exists t, parse (so_stdout o) = Ok t /\
-    (script_huge t = false -> exists out, gen default_cfg tmpl (so_stdout o) = Ok out).
+  exists out, gen default_cfg tmpl (so_stdout o) = Ok out.
 Proof.
   intros w n rs o tmpl Hn Hg Hs (_ & (b & Hb & _ & Hr) & _) Htmpl.
   rewrite Forall_forall in Hg, Hs. pose proof (nth_error_In _ _ Hb) as Hin.
